@@ -111,7 +111,19 @@ func genC13(seed uint64, tier string) *plan.Plan {
 	quiet := int64(2*p.Cluster.RoutingPushMs + 3*p.Cluster.BalancerMs + 500)
 	sc.Ops = append(sc.Ops, plan.Op{K: "ctl.wait_stable", Dur: bound + 3*quiet, Dur2: quiet, Tag: "final"})
 	sc.Ops = append(sc.Ops, plan.Op{K: "ctl.snapshot", Flag: true})
-	p.Phases = []plan.Phase{{Name: "membership", Yields: true, Clients: []plan.Script{sc}}}
+	clients := []plan.Script{sc}
+	if r.Bool(500) {
+		// a writer keeps putting fresh keys (mostly into partitions that are still empty) through the
+		// cluster client while the membership changes: members that are no longer listed for a
+		// partition receive data and report it back to the coordinator
+		w := plan.Script{ID: 2, Kind: "cc"}
+		for i, k := 0, r.Range(100, 400); i < k; i++ {
+			w.Ops = append(w.Ops, plan.Op{K: "put", Key: fmt.Sprintf("w%d", i), Val: "w", D: int64(Pick(r, 0, 500, 5000, 40000))})
+		}
+		clients = append(clients, w)
+		sig += "+w"
+	}
+	p.Phases = []plan.Phase{{Name: "membership", Yields: true, Clients: clients}}
 	p.Variant = sig
 	return p
 }
@@ -303,6 +315,7 @@ func checkSnapshot(p *plan.Plan, s *plan.Snapshot, res *plan.Result) {
 func oracleC13(p *plan.Plan, his []plan.Rec, res *plan.Result) {
 	var snap *plan.Snapshot
 	events := 0
+	invariantSeen := false
 	for i := range his {
 		r := &his[i]
 		switch r.Op.K {
@@ -312,6 +325,10 @@ func oracleC13(p *plan.Plan, his []plan.Rec, res *plan.Result) {
 				res.Status, res.Reason = "inconclusive", "member start failed: "+r.Err
 			}
 		case "ctl.wait_stable":
+			if strings.HasPrefix(r.Info, "invariant:") && !invariantSeen {
+				invariantSeen = true
+				viol(res, "owner-differs-under-equal-signature", "primary", "%s [%s]", strings.TrimPrefix(r.Info, "invariant:"), p.Variant)
+			}
 			if r.Err != "" && r.Op.Tag == "final" {
 				viol(res, "not-stabilised", p.Variant+stormTag(r.Err), "after events %s the cluster did not stabilise within the bound: %s", p.Variant, r.Err)
 			}
